@@ -44,6 +44,7 @@ type Src struct {
 	DictCode byte   `json:"dictcode,omitempty"`
 	Sizes    int    `json:"sizes,omitempty"`    // bit0 compressed size field, bit1 uncompressed
 	ExtraPad int    `json:"extrapad,omitempty"` // extra block header padding (x4 bytes)
+	Mix      bool   `json:"mix,omitempty"`      // xz: every block draws its own size-field flags, header padding and dictionary code
 	SizeMode int    `json:"sizemode,omitempty"` // lzma: 0 marker, 1 size, 2 size+marker
 	MarkLen  int    `json:"marklen,omitempty"`  // lzma (ref): length coded in the end marker (0 = 2)
 	DictFld  uint32 `json:"dictfld,omitempty"`  // lzma: header dictionary field
@@ -521,7 +522,21 @@ func (s Src) buildRef() (*Built, error) {
 				specs = append(specs, extra...)
 			}
 			specs = append(specs, ref.ChunkSpec{Kind: ref.CkEnd})
-			sp.Blocks = append(sp.Blocks, ref.BlockSpec{Chunks: specs, DictCode: s.DictCode, WithCSize: s.Sizes&1 != 0, WithUSize: s.Sizes&2 != 0, ExtraPad: s.ExtraPad})
+			bs := ref.BlockSpec{Chunks: specs, DictCode: s.DictCode, WithCSize: s.Sizes&1 != 0, WithUSize: s.Sizes&2 != 0, ExtraPad: s.ExtraPad}
+			if s.Mix {
+				// blocks that differ from each other: a size field present in
+				// one header and absent from the next, other padding, a larger
+				// declared dictionary (never smaller than the one the chunks
+				// were built for)
+				v := p.Next()
+				bs.WithCSize, bs.WithUSize = v&1 != 0, v&2 != 0
+				bs.ExtraPad = int((v >> 2) % 3)
+				if bs.DictCode < 8 {
+					bs.DictCode += byte((v >> 8) % 3)
+				}
+				feats["blocks_differ"] = true
+			}
+			sp.Blocks = append(sp.Blocks, bs)
 		}
 		if s.NBlocks == 0 {
 			feats["zero_blocks"] = true
@@ -791,6 +806,7 @@ func DrawSrc(t *rapid.T, format string, maxData int, origins ...string) Src {
 				s.DictCode = byte(rapid.SampledFrom([]int{16, 21, 24, 27, 28}).Draw(t, "bigdictcode"))
 			}
 			s.Sizes = rapid.IntRange(0, 3).Draw(t, "sizes")
+			s.Mix = s.NBlocks >= 2 && rapid.IntRange(0, 2).Draw(t, "mixblocks") == 0
 			s.ExtraPad = rapid.SampledFrom([]int{0, 0, 1, 3}).Draw(t, "extrapad")
 		case "lzma2":
 			s.NChunks = rapid.IntRange(0, 6).Draw(t, "nchunks")
